@@ -378,9 +378,20 @@ func ValidationMatrix() *m.Design {
 		methods = append(methods, &m.Method{Name: fmt.Sprintf("format%d", i), Payload: obj(fld("name", fmtA(f), true)),
 			HTTP: &m.HTTPEndpoint{Routes: []m.Route{{Verb: "POST", Path: fmt.Sprintf("/v/format%d", i)}}}})
 	}
+	// bounds written in the HTTP mapping, on a plain attribute and on attributes of
+	// alias types that bring bounds of their own (the effective validation is the union)
+	quantity := &m.UserType{Name: "Quantity", Var: "vquantity", Attr: &m.Attr{Type: &m.Type{Kind: m.Int}, V: &m.Validation{Min: fp(1)}}}
+	code := &m.UserType{Name: "Code", Var: "vcode", Attr: &m.Attr{Type: &m.Type{Kind: m.String}, V: &m.Validation{MinLen: ip(2)}}}
+	atMap := func(a *m.Attr, v *m.Validation) *m.Attr { a.V, a.VAtMapping = v, true; return a }
+	methods = append(methods, &m.Method{Name: "stock",
+		Payload: obj(fld("sku", m.Prim(m.String), true), fld("batch", atMap(m.UserRef("Quantity"), &m.Validation{Max: fp(50)}), false),
+			fld("fill", atMap(m.Prim(m.Int), &m.Validation{Max: fp(10)}), false), fld("code", atMap(m.UserRef("Code"), &m.Validation{MaxLen: ip(5)}), false)),
+		HTTP: &m.HTTPEndpoint{Routes: []m.Route{{Verb: "POST", Path: "/v/stock/{sku}"}}, Path: []m.Mapping{{Attr: "sku"}},
+			Query: []m.Mapping{{Attr: "batch"}, {Attr: "fill"}, {Attr: "code"}}}})
 	return &m.Design{API: m.API{Name: "validations", Title: "Validation matrix"},
+		Types:    []*m.UserType{quantity, code},
 		Services: []*m.Service{{Name: "validations", HasHTTP: true, Methods: methods}},
-		Features: []string{"fixed-design:validation-matrix", "pattern", "format", "same-attribute-name-different-constraints"}}
+		Features: []string{"fixed-design:validation-matrix", "pattern", "format", "same-attribute-name-different-constraints", "validation-in-mapping", "validation-in-mapping-on-alias"}}
 }
 
 // VerbMatrix is a fixed design with one endpoint per HTTP verb (HEAD included:
